@@ -39,6 +39,12 @@ pub struct CaseResult {
     pub aborted: bool,
 }
 
+/// element of a join's output Vec: with or without drop glue
+enum JTok {
+    T(Token),
+    P(PTok),
+}
+
 struct HintRec {
     lower: usize,
     upper: Option<usize>,
@@ -279,6 +285,38 @@ impl<'a> Run<'a> {
         }
     }
 
+    /// same for an output value without drop glue
+    fn take_ptok(&mut self, t: PTok, what: &str) -> Option<(TokKind, Cid, u32)> {
+        let pr = p(7) | self.class_props();
+        match t.valid() {
+            None => {
+                let raw = t.raw();
+                w(|x| {
+                    x.violate(
+                        pr,
+                        "C07/garbage-value-handed-out",
+                        format!("{what}: a value that no child produced was handed out: raw={raw:x?}"),
+                    )
+                });
+                None
+            }
+            Some(tid) => Some(w(|x| {
+                let tk = &mut x.toks[tid as usize];
+                let dup = tk.handed_out;
+                tk.handed_out = true;
+                let r = (tk.kind, tk.child, tk.seq);
+                if dup {
+                    x.violate(
+                        pr,
+                        "C02/value-handed-out-twice",
+                        format!("{what}: output #{tid} of child {} handed out twice", r.1),
+                    );
+                }
+                r
+            })),
+        }
+    }
+
     /// an output of child `c` came out of a collection / adapter
     fn note_yield(&mut self, c: Cid, what: &str) {
         let ordered = self.case.subj.is_ordered();
@@ -373,11 +411,19 @@ impl<'a> Run<'a> {
                 PollOut::Item(Out::Vec(Vec::new()))
             }
             PollOut::Item(Out::Vec(v)) => {
-                self.join_ready(Ok(v));
+                self.join_ready(Ok(v.into_iter().map(JTok::T).collect()));
                 PollOut::Item(Out::Vec(Vec::new()))
             }
             PollOut::Item(Out::ResVec(r)) => {
-                self.join_ready(r);
+                self.join_ready(r.map(|v| v.into_iter().map(JTok::T).collect()));
+                PollOut::Item(Out::Vec(Vec::new()))
+            }
+            PollOut::Item(Out::PVec(v)) => {
+                self.join_ready(Ok(v.into_iter().map(JTok::P).collect()));
+                PollOut::Item(Out::Vec(Vec::new()))
+            }
+            PollOut::Item(Out::PResVec(r)) => {
+                self.join_ready(r.map(|v| v.into_iter().map(JTok::P).collect()));
                 PollOut::Item(Out::Vec(Vec::new()))
             }
             PollOut::Done => {
@@ -419,7 +465,7 @@ impl<'a> Run<'a> {
         self.stats.yielded += 1;
     }
 
-    fn join_ready(&mut self, r: Result<Vec<Token>, ErrTok>) {
+    fn join_ready(&mut self, r: Result<Vec<JTok>, ErrTok>) {
         let n = self.case.cfg.initial.len();
         let first = !self.resolved;
         if !first {
@@ -430,8 +476,12 @@ impl<'a> Run<'a> {
                 let len = v.len();
                 let mut ids = Vec::new();
                 for t in v {
-                    match self.take_tok(t, "join output") {
-                        Some((TokKind::Out, c, _)) => ids.push(Some(c)),
+                    let got = match t {
+                        JTok::T(t) => self.take_tok(t, "join output"),
+                        JTok::P(p_) => self.take_ptok(p_, "join output"),
+                    };
+                    match got {
+                        Some((TokKind::Out | TokKind::OutPlain, c, _)) => ids.push(Some(c)),
                         Some((k, c, _)) => {
                             w(|x| {
                                 x.violate(p(7), "C07/wrong-kind-in-vec", format!("Vec element of kind {k:?} (child {c})"))
@@ -1533,7 +1583,7 @@ impl<'a> Run<'a> {
             }
             let mut leaked = Vec::new();
             for (i, t) in x.toks.iter().enumerate() {
-                if t.dropped == 0 {
+                if t.dropped == 0 && t.kind != TokKind::OutPlain {
                     leaked.push((i, t.child, t.kind));
                 }
             }
